@@ -478,6 +478,19 @@ func buildClientPacket(ver byte, a []string) []byte {
 		if v, ok := m["ct"]; ok {
 			props = append(props, refProp{3, rStr(v)})
 		}
+		if v, ok := m["pf"]; ok { // payload format indicator
+			props = append(props, refProp{1, []byte{byte(atoi(v))}})
+		}
+		if v, ok := m["rt"]; ok { // response topic (hex)
+			props = append(props, refProp{8, rStr(string(unhx(v)))})
+		}
+		if v, ok := m["cd"]; ok { // correlation data (hex)
+			props = append(props, refProp{9, rStr(string(unhx(v)))})
+		}
+		if v, ok := m["up"]; ok { // one user property keyhex:valuehex
+			kv := strings.Split(v, ":")
+			props = append(props, refProp{38, append(rStr(string(unhx(kv[0]))), rStr(string(unhx(kv[1])))...)})
+		}
 		body = addProps(body)
 		body = append(body, unhx(m["p"])...)
 		return fixedHeader(hb, body)
@@ -609,6 +622,10 @@ func bkStartConn(b *bkState, a []string) (*bkConn, string) {
 	}
 	body = append(body, rStr(string(unhx(a[3])))...)
 	body = append(body, tail...)
+	if v, ok := m["un"]; ok { // user name (hex)
+		body[len(rStr(pname))+1] |= 128
+		body = append(body, rStr(string(unhx(v)))...)
+	}
 	if raw, ok := m["raw"]; ok { // a raw first packet instead of CONNECT
 		c1.SetWriteDeadline(time.Now().Add(2 * time.Second))
 		c1.Write(unhx(raw))
